@@ -88,7 +88,8 @@ theorem tsteps_run (a tid k : Nat) :
 def CanFetch (s : Swarm) (a b i : Nat) (pa pb : Peer) : Prop :=
   (b, i) ∈ pa.reqs ∨
   ((pa.reqs.filter (·.1 = b)).length < s.cfg.pipeline ∧
-    (b ∈ pa.conns ∨ (a ∉ pb.conns ∧ pa.conns.length < s.cfg.maxConns ∧ pb.conns.length < s.cfg.maxConns)))
+    (b ∈ pa.conns ∨ (a ∉ pb.conns ∧ pa.conns.length < s.cfg.maxConns ∧ pb.conns.length < s.cfg.maxConns ∧
+      b ∉ pa.blacklist ∧ a ∉ pb.blacklist)))
 
 /-- the request for piece `i` can be made outstanding without touching any torrent -/
 theorem make_request {s : Swarm} {a b i : Nat} {pa pb : Peer} (ha : s.peers[a]? = some pa) (hb : s.peers[b]? = some pb)
@@ -121,7 +122,7 @@ theorem make_request {s : Swarm} {a b i : Nat} {pa pb : Peer} (ha : s.peers[a]? 
         rw [if_pos hcond]
         refine ⟨_, setPeer_get_self ha1, ?_, htor, hp1, List.mem_cons_self ..⟩
         rw [setPeer_get_other hab]; exact hb1
-      rcases hconn with hc | ⟨hnb, hla, hlb⟩
+      rcases hconn with hc | ⟨hnb, hla, hlb, hbl1, hbl2⟩
       · obtain ⟨pa2, h1, h2, h3, h4, h5⟩ := req s pa pb rfl ha hb rfl rfl hpa hc rfl
         exact ⟨[.request a b i], pa2, pb, by simp [SepSwarmAction], h1, h2, h3, h4, h5, rfl, hpb, rfl⟩
       · by_cases hc : b ∈ pa.conns
@@ -129,8 +130,9 @@ theorem make_request {s : Swarm} {a b i : Nat} {pa pb : Peer} (ha : s.peers[a]? 
           exact ⟨[.request a b i], pa2, pb, by simp [SepSwarmAction], h1, h2, h3, h4, h5, rfl, hpb, rfl⟩
         · -- connect first
           have hcond : a ≠ b ∧ pa.present = true ∧ pb.present = true ∧ b ∉ pa.conns ∧ a ∉ pb.conns ∧
-              pa.conns.length < s.cfg.maxConns ∧ pb.conns.length < s.cfg.maxConns :=
-            ⟨hab, hpa, hpb, hc, hnb, hla, hlb⟩
+              pa.conns.length < s.cfg.maxConns ∧ pb.conns.length < s.cfg.maxConns ∧
+              b ∉ pa.blacklist ∧ a ∉ pb.blacklist :=
+            ⟨hab, hpa, hpb, hc, hnb, hla, hlb, hbl1, hbl2⟩
           have hs1 : Swarm.step crc s (.connect a b) =
               setPeer (setPeer s a { pa with conns := b :: pa.conns }) b { pb with conns := a :: pb.conns } := by
             simp only [Swarm.step, ha, hb]
@@ -242,7 +244,7 @@ theorem fetch_empty (hpl : 0 < pl) {s : Swarm} (hs : SwarmOK crc pl blob s) (a b
         tor := AgentTorrent.step crc pa1.tor (.spawn (i : Int) (pieceOf pl blob i)),
         inflight := pa1.inflight ++ [{ tid := pa1.tor.threads.length, src := b, piece := i }] } := by
     simp only [Swarm.step, s1, ha1, hb1]
-    rw [if_pos ⟨hp1, hpb1, hreq1⟩, hwire]
+    rw [if_pos ⟨hp1, hpb1⟩, hwire]
   -- the call runs alone
   have hrun := tsteps_run (crc := crc) a pa1.tor.threads.length pl 20 (Swarm.step crc s1 (.deliver a b i []))
     _ (by rw [hdel]; exact setPeer_get_self ha1)
